@@ -1,9 +1,60 @@
 (* Property C11: binary MIR written by MIR_write reads back as the same module, deterministically.
-   Only the property theorems, each closed by [exact] and followed by Print Assumptions. *)
+   Only the property theorems, each closed by [exact] and followed by Print Assumptions.
+   Model: coq/C11/BinIO.v (writer write_ctx = MIR_write_with_func below the compression layer, reader
+   read_ctx = MIR_read_with_func), coq/C11/Ast.v.  Statements are about *all* contexts (lists of
+   modules) meeting the explicit hypotheses [wf_ctx] (BinRoundtrip.v), decidable by [wf_ctx_b]. *)
 From Coq Require Import List ZArith NArith.
-From MirV Require Import Base.W64 C11.Ast C11.BinIO C11.BinIOProofs.
+From MirV Require Import Base.W64 C11.Ast C11.BinIO C11.BinIOProofs C11.BinGrammarProofs C11.BinRoundtrip C11.BinWfDec
+  C11.BinExamples C10.TextOut C10.TextProofs.
+Import ListNotations.
 Local Open Scope Z_scope.
 
-Theorem bin_le_bytes_roundtrip : forall n u, 0 <= u -> le_val (le_bytes n u) = u mod 256 ^ Z.of_nat n.
-Proof. exact le_val_le_bytes. Qed.
-Print Assumptions bin_le_bytes_roundtrip.
+(* Every token kind and every value survives the byte codec: unsigned/signed integers of any 64-bit
+   pattern (variable-length TAG_U0|0x80, TAG_U1..8, TAG_I1..8 with zero-extending get_int), float and
+   double bit patterns (NaN payloads included), all 128 bits of a long double token, 1..4-byte
+   string / register / name / label numbers, the 14 memory tags, type tags, EOI, EOFILE; and the
+   decoder consumes exactly the token's bytes. *)
+Theorem bin_token_roundtrip : forall b rest, wf_btok b -> dec_tok (enc_tok b ++ rest) = Some (b, rest).
+Proof. exact bin_token_roundtrip_lemma. Qed.
+Print Assumptions bin_token_roundtrip.
+
+(* Two-pass string table: every string the second pass looks up was stored by the first pass, and its
+   first-occurrence index leads back to it. *)
+Theorem bin_string_table_complete : forall ts t e,
+  In t ts -> entry_of t = Some e ->
+  In e (collect ts) /\ nth_error (collect ts) (index_of e (collect ts)) = Some e.
+Proof. intros ts t e H1 H2. split; [| apply index_of_nth]; exact (bin_string_table_complete_lemma ts t e H1 H2). Qed.
+Print Assumptions bin_string_table_complete.
+
+(* Reading what the writer wrote recreates the modules up to the normal form [norm_module] (scale of
+   an index-less memory operand, size field of a non-block argument: both invisible to either
+   writer), i.e. the result prints to the same text and serialises to the same bytes; nothing else
+   changes: all immediates bit for bit, labels (lref items included) by number, item order, names. *)
+Theorem bin_module_roundtrip : forall ms, wf_ctx ms ->
+  read_ctx (write_ctx ms) = Ok (map norm_module ms)
+  /\ write_ctx (map norm_module ms) = write_ctx ms
+  /\ (forall fF fD fLD, p_ctx fF fD fLD (map norm_module ms) = p_ctx fF fD fLD ms)
+  /\ map norm_module (map norm_module ms) = map norm_module ms.
+Proof.
+  intros ms H. split; [exact (read_write_ctx ms H)|]. split; [exact (write_ctx_norm ms)|].
+  split; [intros; apply p_ctx_norm|]. rewrite map_map. apply map_ext. exact norm_module_idem.
+Qed.
+Print Assumptions bin_module_roundtrip.
+
+(* the same with the hypotheses as one computable check (run on every generated module) *)
+Theorem bin_module_roundtrip_checked : forall ms, wf_ctx_b ms = true ->
+  read_ctx (write_ctx ms) = Ok (map norm_module ms).
+Proof. exact read_write_ctx_b. Qed.
+Print Assumptions bin_module_roundtrip_checked.
+
+(* Determinism in the model: the bytes are a function of the module's normal form (no dependence on
+   anything else, in particular not on what a previous read normalised away). *)
+Theorem bin_write_function : forall ms1 ms2,
+  map norm_module ms1 = map norm_module ms2 -> write_ctx ms1 = write_ctx ms2.
+Proof. intros ms1 ms2 H. rewrite <- (write_ctx_norm ms1), <- (write_ctx_norm ms2), H. reflexivity. Qed.
+Print Assumptions bin_write_function.
+
+(* non-vacuity: the hypotheses hold for a context with every item kind and operand form *)
+Theorem bin_roundtrip_nonvacuous : wf_ctx ex_ctx /\ map norm_module ex_ctx <> ex_ctx.
+Proof. split; [apply wf_ctx_b_spec; exact ex_ctx_wf | exact ex_ctx_norm_differs]. Qed.
+Print Assumptions bin_roundtrip_nonvacuous.
